@@ -110,3 +110,9 @@
     (bvor (cell (and al (bvult #x01 n)) (stepSq a df dr #x01)) (cell (and al (bvult #x02 n)) (stepSq a df dr #x02))
           (cell (and al (bvult #x03 n)) (stepSq a df dr #x03)) (cell (and al (bvult #x04 n)) (stepSq a df dr #x04))
           (cell (and al (bvult #x05 n)) (stepSq a df dr #x05)) (cell (and al (bvult #x06 n)) (stepSq a df dr #x06)))))
+
+; ---------------------------------------------------------------- colour mirror
+; the mirror image of a set of squares: ranks flipped (square s <-> s xor 56), i.e. the bytes reversed
+(define-fun mirrorBB ((x BB)) BB
+  (concat ((_ extract 7 0) x) ((_ extract 15 8) x) ((_ extract 23 16) x) ((_ extract 31 24) x)
+          ((_ extract 39 32) x) ((_ extract 47 40) x) ((_ extract 55 48) x) ((_ extract 63 56) x)))
